@@ -197,6 +197,10 @@ class GopherEntry:
         for extension, blockname in list(eaexts.items()):
             if blockname in self.ea:
                 continue
+            if not vfs.isfile(selector + extension):
+                # Nothing there, or nothing to read lines from (opening a
+                # FIFO of that name would wait for a writer forever).
+                continue
             try:
                 with vfs.open(
                     selector + extension, "r", errors="surrogateescape"
